@@ -307,6 +307,16 @@ def _deepcopy(interp, args, kwargs):
     return SV(x.ty, z3.If(so.is_none(x.t), so.none, so.some(r)))
 
 
+def _answered(name, opt_ty):
+    def f(interp, args, kwargs):
+        """uninterpreted function of (schema, tag, prefix): what the schema's find_tag_entry answers"""
+        from pyvc.vals import TOpt, TRef
+        ty = TOpt(TRef("TagEntry")) if opt_ty == "entry" else TOpt(STR)
+        fn = z3.Function(name, z3.IntSort(), z3.IntSort(), z3.StringSort(), sort_of(ty))
+        return SV(ty, fn(args[0].t, args[1].t, _s(interp, args[2])))
+    return f
+
+
 def _str_count_native(interp, args, kwargs):
     """s.count(c) for native strings: uninterpreted, with count >= 0 and count == 0 iff c does not occur"""
     ctx = interp.ctx
@@ -497,7 +507,7 @@ if z3 is not None:
         "str.rpartition": _partition(True), "str.partition": _partition(False),
         "str.count": _str_count_native, "count_of": _str_count_native,
         "ErrorHandler.format_error_with_context": _format_error_with_context,
-        "str.replace": _str_replace, "str.split": _str_split, "split_off": _split_off, "copy.deepcopy": _deepcopy, "replace_all": _str_replace,
+        "str.replace": _str_replace, "str.split": _str_split, "answered_entry": _answered("answered_entry", "entry"), "answered_remainder": _answered("answered_remainder", "rem"), "split_off": _split_off, "copy.deepcopy": _deepcopy, "replace_all": _str_replace,
         "forall_str": _forall_str, "dirname_of": _dirname_model, "commonpath2": _ufun("commonpath2", 2),
         "os.path.commonpath": lambda interp, args, kwargs: _ufun("commonpath2", 2)(interp, list(interp.iter_items_concrete(args[0])), {}), "basename_of": _basename_model, "original_path_of": _ufun("original_path_of", 2),
         "backup_keys": lambda interp, args, kwargs: interp.ctx.wrap(z3.Function("backup_keys", z3.IntSort(), z3.StringSort(), sort_of(__import__("pyvc.vals", fromlist=["TList"]).TList(STR)))(args[0].t, _s(interp, args[1])), __import__("pyvc.vals", fromlist=["TList"]).TList(STR)), "unknown_src_map": _src_map, "src_of": _src_of,
